@@ -230,3 +230,38 @@ register(Contract(
     raises=[Raises("BadPluginError"), Raises("BadPluginFixError")],
     modifies=[A35, "g_reports.$list", "g_fixreq.$list"],
 ))
+
+# ------------------------------------------------------------------------------------------------------------ MD041
+# newdocs/src/plugins/rule_md041.md: "This rule is triggered when the first element in the document is not a top-level or h1
+# heading".  Under contract here: once the first element has been judged nothing more is reported; a heading as first element is
+# reported iff its level differs from `level`; and (C07) whatever is reported is reported at a position that exists (line >= 1,
+# column >= 1) -- given that every token other than an end token or the end-of-stream token carries such a position.
+M41 = "pymarkdown/plugins/rule_md_041.py::RuleMd041."
+_R["$fields"].types.update({"RuleMd041._RuleMd041__start_level": "int", "RuleMd041._RuleMd041__have_seen_first_token": "bool",
+                            "RuleMd041._RuleMd041__front_matter_title": "str", "RuleMd041._RuleMd041__seen_html_block_start": "Optional[MarkdownToken]",
+                            "TextMarkdownToken._TextMarkdownToken__token_text": "str"})
+POSOK = "({t}.line_number >= 1 and {t}.column_number >= 1)"
+SEEN = "self.__seen_html_block_start"
+register(Contract(
+    key=M41 + "next_token", properties=P + ["C07"],
+    ghost={"g_reports": "List[Any]"},
+    types={"token": "AtxHeadingMarkdownToken"},
+    calls={"self.report_next_token_error": RPK + "report_next_token_error"},
+    requires=["has_type(token.line_number, 'int') and has_type(token.column_number, 'int')",
+              f"implies(not token.is_end_token and not token.is_end_of_stream, {POSOK.format(t='token')})",
+              "implies(token.is_end_of_stream, token.column_number == 0)",
+              # a document does not start with an end token -- except the end-of-stream token of a document without content
+              # (whose name, 'end-of-stream', also makes is_end_token true)
+              "implies(not self.__have_seen_first_token, not token.is_end_token or token.is_end_of_stream)",
+              f"implies({SEEN} is not None, has_type({SEEN}.line_number, 'int') and has_type({SEEN}.column_number, 'int') and {POSOK.format(t=SEEN)})"],
+    ensures=[
+        "implies(old(self.__have_seen_first_token), len(g_reports) == old(len(g_reports)) and self.__have_seen_first_token)",
+        f"implies(not old(self.__have_seen_first_token) and {HEAD}, self.__have_seen_first_token and "
+        "len(g_reports) == old(len(g_reports)) + (1 if token.hash_count != self.__start_level else 0))",
+        "len(g_reports) == old(len(g_reports)) or len(g_reports) == old(len(g_reports)) + 1",
+        # C07: a reported position exists in the file
+        "implies(len(g_reports) > old(len(g_reports)), g_reports[len(g_reports) - 1][1] >= 1 and g_reports[len(g_reports) - 1][2] >= 1)",
+    ],
+    raises=[Raises("BadPluginError"), Raises("AssertionError")],
+    modifies=["self.__have_seen_first_token", SEEN, "g_reports.$list"],
+))
